@@ -573,11 +573,11 @@ mod s3stubs {
         collections::HashSet,
         hash::{BuildHasher, Hash},
     };
-    pub fn hs_insert<T: Eq + Hash, S: BuildHasher>(_this: &mut HashSet<T, S>, value: T) -> bool {
+    pub fn hs_insert<T: Eq + Hash, S: BuildHasher, A: std::alloc::Allocator>(_this: &mut HashSet<T, S, A>, value: T) -> bool {
         std::mem::forget(value);
         true
     }
-    pub fn hs_remove<T: Eq + Hash + Borrow<Q>, S: BuildHasher, Q: ?Sized + Hash + Eq>(_this: &mut HashSet<T, S>, _value: &Q) -> bool {
+    pub fn hs_remove<T: Eq + Hash + Borrow<Q>, S: BuildHasher, A: std::alloc::Allocator, Q: ?Sized + Hash + Eq>(_this: &mut HashSet<T, S, A>, _value: &Q) -> bool {
         true
     }
     pub fn random_state_fixed() -> std::hash::RandomState {
